@@ -63,6 +63,8 @@ pub struct RunReport {
 }
 
 pub struct RunCtx {
+    /// run index within the batch (None when replaying from tapes)
+    pub index: Option<u64>,
     pub thorough: bool,
     pub sched: Option<Vec<u64>>,
     pub sched_seed: u64,
@@ -93,6 +95,8 @@ pub struct PropertySpec {
     pub rule: &'static str,
     pub quick_runs: u64,
     pub thorough_runs: u64,
+    /// size of the finite configuration matrix walked by run index (0 = none)
+    pub matrix_cells: u64,
     pub real_components: &'static [&'static str],
     pub stubbed_components: &'static [&'static str],
     pub assumptions: &'static [&'static str],
@@ -116,12 +120,12 @@ pub fn execute(spec: &PropertySpec, gen: Tape, ctx: &RunCtx) -> OneRun {
 
 fn run_seeded(spec: &PropertySpec, seed: u64, i: u64, thorough: bool, describe: bool) -> OneRun {
     let rs = mix(seed ^ prop_hash(spec.id), i);
-    let ctx = RunCtx { thorough, sched: None, sched_seed: mix(rs, 0x5c4ed), trace: false, describe };
+    let ctx = RunCtx { index: Some(i), thorough, sched: None, sched_seed: mix(rs, 0x5c4ed), trace: false, describe };
     execute(spec, Tape::from_seed(rs), &ctx)
 }
 
 fn run_tapes(spec: &PropertySpec, gen: &[u64], sched: &[u64], thorough: bool, describe: bool, trace: bool) -> OneRun {
-    let ctx = RunCtx { thorough, sched: Some(sched.to_vec()), sched_seed: 0, trace, describe };
+    let ctx = RunCtx { index: None, thorough, sched: Some(sched.to_vec()), sched_seed: 0, trace, describe };
     execute(spec, Tape::from_values(gen.to_vec()), &ctx)
 }
 
@@ -515,7 +519,8 @@ pub fn write_evidence(
             "distinct_plan_shapes_x_schedules": b.distinct,
             "rule": spec.rule,
             "samples": b.samples,
-            "exhaustive": false,
+            "exhaustive": spec.matrix_cells > 0 && b.evaluations >= spec.matrix_cells,
+            "matrix_cells": spec.matrix_cells,
             "runs_per_hour": runs_per_hour,
             "simulated_seconds": b.stats.sim_ns as f64 / 1e9,
             "kernel_events": b.stats.events,
